@@ -159,6 +159,16 @@ theorem ensureChainK_frame (k : Kern) (c : Chain) (hc : c.isGlx = true) : Frame 
   · exact Frame.refl k
   · exact frame_setChain_glx k c hc []
 
+theorem foreignRules_cons_base (c : Chain) (r : PRule) (rs : List PRule) (h : glxBaseRules.contains (c, r) = true) :
+    foreignRules c (r :: rs) = foreignRules c rs := by
+  have hm : (c, r) ∈ glxBaseRules := List.contains_iff_mem.mp h
+  simp [foreignRules, List.filter_cons, hm]
+
+theorem foreignRules_append_base (c : Chain) (r : PRule) (rs : List PRule) (h : glxBaseRules.contains (c, r) = true) :
+    foreignRules c (rs ++ [r]) = foreignRules c rs := by
+  have hm : (c, r) ∈ glxBaseRules := List.contains_iff_mem.mp h
+  simp [foreignRules, List.filter_append, List.filter_cons, hm]
+
 /-- EnsureRule into a GLX chain, or of a documented base jump into its built-in chain -/
 theorem ensureRule_frame (k : Kern) (prepend : Bool) (c : Chain) (r : PRule)
     (h : c.isGlx = true ∨ glxBaseRules.contains (c, r) = true) : Frame k (ensureRule k prepend c r).1 := by
@@ -174,7 +184,9 @@ theorem ensureRule_frame (k : Kern) (prepend : Bool) (c : Chain) (r : PRule)
       · rcases h with h | h
         · exact frame_setChain_glx k c h _
         · apply frame_setChain_same k c rs _ hg
-          cases prepend <;> simp [foreignRules, List.filter_append, h]
+          cases prepend
+          · exact foreignRules_append_base c r rs h
+          · exact foreignRules_cons_base c r rs h
 
 theorem deleteRule_frame (k : Kern) (c : Chain) (r : PRule) (h : c.isGlx = true) : Frame k (deleteRule k c r).1 := by
   unfold deleteRule
@@ -193,8 +205,7 @@ theorem ensureBasic_frame (k : Kern) : Frame k (ensureBasic k).1 := by
   have : ∀ (l : List (Chain × PRule)) (acc : Kern × List Fail), (∀ cr ∈ l, glxBaseRules.contains cr = true) →
       Frame k acc.1 →
       Frame k (l.foldl (fun (acc : Kern × List Fail) cr =>
-        let (k', f) := ensureRule acc.1 true cr.1 cr.2
-        (k', acc.2 ++ f)) acc).1 := by
+        ((ensureRule acc.1 true cr.1 cr.2).1, acc.2 ++ (ensureRule acc.1 true cr.1 cr.2).2)) acc).1 := by
     intro l
     induction l with
     | nil => intro acc _ h; exact h
@@ -215,32 +226,48 @@ theorem deleteHookByKeyword_frame (k : Kern) (c pc : Chain) (h : c.isGlx = true)
     · exact Frame.refl k
     · exact deleteRule_frame k c _ h
 
+theorem dropPodChain_frame (k : Kern) (pc : Chain) (h : pc.isGlx = true) : Frame k (dropPodChain k pc) := by
+  unfold dropPodChain
+  split
+  · exact Frame.refl k
+  · split
+    · exact frame_setChain_glx k pc h []
+    · exact (frame_setChain_glx k pc h []).trans (frame_erase_glx { k with tbl := setChain k.tbl pc [] } pc h)
+
 theorem deletePodChains_frame (k : Kern) (q : Pod) : Frame k (deletePodChains k q).1 := by
   unfold deletePodChains
-  have h1 := deleteHookByKeyword_frame k .glxIngress (.pod q.hash) rfl
-  have h2 := deleteHookByKeyword_frame (deleteHookByKeyword k .glxIngress (.pod q.hash)).1 .glxEgress (.pod q.hash) rfl
-  have h12 := h1.trans h2
-  generalize (deleteHookByKeyword (deleteHookByKeyword k .glxIngress (.pod q.hash)).1 .glxEgress (.pod q.hash)) = r2 at h12 ⊢
-  obtain ⟨k2, f2⟩ := r2
-  simp only at h12 ⊢
-  generalize (deleteHookByKeyword k .glxIngress (.pod q.hash)) = r1
-  obtain ⟨k1, f1⟩ := r1
-  simp only
-  split
-  · exact h12
-  · simp only
-    refine h12.trans ?_
-    have ha := frame_setChain_glx k2 (.pod q.hash) rfl []
-    split
-    · exact ha
-    · exact ha.trans (frame_erase_glx { k2 with tbl := setChain k2.tbl (.pod q.hash) [] } (.pod q.hash) rfl)
+  exact ((deleteHookByKeyword_frame k .glxIngress (.pod q.hash) rfl).trans
+    (deleteHookByKeyword_frame _ .glxEgress (.pod q.hash) rfl)).trans (dropPodChain_frame _ (.pod q.hash) rfl)
 
 theorem restore_frame' (k : Kern) (cmds : List Cmd) (hc : ∀ cmd ∈ cmds, cmd.chain.isGlx = true) (t' : Table)
     (h : restore k cmds = .ok t') : Frame k { k with tbl := t' } :=
   frame_tbl_glx k t' (restore_frame k cmds hc t' h)
 
-theorem hookRule_single (ing : Bool) (q : Pod) (a : IP) (h : q.ip = some a) : ∃ r, hookRule ing q = [r] := by
-  simp [hookRule, h]
+theorem hookStep_frame (k : Kern) (sel : Bool) (c : Chain) (r : PRule) (h : c.isGlx = true) :
+    Frame k (hookStep k sel c r).1 := by
+  unfold hookStep
+  split
+  · exact ensureRule_frame k false c r (Or.inl h)
+  · exact deleteRule_frame k c r h
+
+theorem syncPodChain_frame (k : Kern) (ps : List NetPol) (q : Pod) : Frame k (syncPodChain k ps q).1 := by
+  unfold syncPodChain
+  split
+  · exact Frame.refl k
+  · rename_i t2 hr
+    have h2 : Frame k { k with tbl := t2 } := restore_frame' k _ (by
+      intro cmd hcmd
+      rcases List.mem_cons.mp hcmd with rfl | hm
+      · rfl
+      · obtain ⟨r, _, rfl⟩ := List.mem_map.mp hm; rfl) t2 hr
+    split
+    · rename_i hi he _ _
+      have h3 := h2.trans (hookStep_frame { k with tbl := t2 } (hookedIngress ps q) .glxIngress hi rfl)
+      dsimp only
+      split
+      · exact h3
+      · exact h3.trans (hookStep_frame _ (hookedEgress ps q) .glxEgress he rfl)
+    · exact h2
 
 /-- SyncPodChains touches only GLX chains and the documented base jumps -/
 theorem syncPod_frame (k : Kern) (ps : List NetPol) (q : Pod) : Frame k (syncPod k ps q).1 := by
@@ -249,40 +276,162 @@ theorem syncPod_frame (k : Kern) (ps : List NetPol) (q : Pod) : Frame k (syncPod
   · exact deletePodChains_frame k q
   · split
     · exact Frame.refl k
-    · have hb := ensureBasic_frame k
-      generalize ensureBasic k = rb at hb ⊢
-      obtain ⟨k1, f1⟩ := rb
-      simp only at hb ⊢
+    · split
+      · exact ensureBasic_frame k
+      · exact (ensureBasic_frame k).trans (syncPodChain_frame _ ps q)
+
+theorem syncPods_frame (k : Kern) (c : Cluster) (ps : List NetPol) (node : String) :
+    Frame k (syncPods k c ps node).1 := by
+  unfold syncPods
+  have : ∀ (l : List Pod) (acc : Kern × List Fail), Frame k acc.1 →
+      Frame k (l.foldl (fun (acc : Kern × List Fail) q =>
+        ((syncPod acc.1 ps q).1, acc.2 ++ (syncPod acc.1 ps q).2)) acc).1 := by
+    intro l
+    induction l with
+    | nil => intro acc h; exact h
+    | cons q rest ih =>
+      intro acc h
+      simp only [List.foldl_cons]
+      exact ih _ (h.trans (syncPod_frame acc.1 ps q))
+  exact this _ (k, []) (Frame.refl k)
+
+/-! ### sets -/
+
+theorem find_updSet_ne (sets : List IpSet) (n m : SetName) (f : List Entry → List Entry) (h : m ≠ n) :
+    (updSet sets n f).find? (·.name == m) = sets.find? (·.name == m) := by
+  induction sets with
+  | nil => rfl
+  | cons s t ih =>
+    simp only [updSet, List.map_cons] at ih ⊢
+    by_cases e : s.name = n
+    · have : ¬ n = m := fun x => h x.symm
+      simp [e, List.find?_cons, this, ih]
+    · simp only [e, if_false, List.find?_cons]
       split
-      · exact hb
-      · split
-        · exact hb
-        · rename_i t2 hr
-          have h2 : Frame k1 { k1 with tbl := t2 } := restore_frame' k1 _ (by
-            intro cmd hcmd
-            rcases List.mem_cons.mp hcmd with rfl | hm
-            · rfl
-            · obtain ⟨r, _, rfl⟩ := List.mem_map.mp hm; rfl) t2 hr
-          have hb2 := hb.trans h2
-          split
-          · rename_i hi he _ _
-            split
-            · -- ingress hook step failed
-              split <;> rename_i hh
-              · exact hb2.trans (ensureRule_frame _ false .glxIngress hi (Or.inl rfl))
-              · exact hb2.trans (deleteRule_frame _ .glxIngress hi rfl)
-            · have h3 : Frame k (if hookedIngress ps q = true then ensureRule { k1 with tbl := t2 } false .glxIngress hi
-                  else deleteRule { k1 with tbl := t2 } .glxIngress hi).1 := by
-                split
-                · exact hb2.trans (ensureRule_frame _ false .glxIngress hi (Or.inl rfl))
-                · exact hb2.trans (deleteRule_frame _ .glxIngress hi rfl)
-              generalize (if hookedIngress ps q = true then ensureRule { k1 with tbl := t2 } false .glxIngress hi
-                  else deleteRule { k1 with tbl := t2 } .glxIngress hi) = r3 at h3 ⊢
-              obtain ⟨k3, f3⟩ := r3
-              simp only at h3 ⊢
-              split
-              · exact h3.trans (ensureRule_frame _ false .glxEgress he (Or.inl rfl))
-              · exact h3.trans (deleteRule_frame _ .glxEgress he rfl)
-          · exact hb2
+      · rfl
+      · exact ih
+
+theorem syncOneSet_frame (sets sets' : List IpSet) (s : IpSet) (hs : s.name.isGlx = true)
+    (h : syncOneSet sets s = .ok sets') : ∀ n, n.isGlx = false → sets'.find? (·.name == n) = sets.find? (·.name == n) := by
+  intro n hn
+  have hne : n ≠ s.name := fun e => by rw [e, hs] at hn; cases hn
+  unfold syncOneSet syncOneSetWith at h
+  split at h
+  · split at h
+    · cases h
+    · cases h
+      exact find_updSet_ne sets s.name n _ hne
+  · cases h
+    rw [List.find?_append]
+    have : ¬ s.name = n := fun e => hne e.symm
+    cases sets.find? (·.name == n) <;> simp [this]
+
+theorem foldlM_sets_frame (new : List IpSet) (hn : ∀ s ∈ new, s.name.isGlx = true) (sets sets' : List IpSet)
+    (h : new.foldlM syncOneSet sets = .ok sets') :
+    ∀ n, n.isGlx = false → sets'.find? (·.name == n) = sets.find? (·.name == n) := by
+  induction new generalizing sets with
+  | nil => simp [List.foldlM] at h; cases h; intro _ _; rfl
+  | cons s rest ih =>
+    simp only [List.foldlM_cons] at h
+    cases h1 : syncOneSet sets s with
+    | error e => rw [h1] at h; cases h
+    | ok s1 =>
+      rw [h1] at h
+      intro n hnn
+      rw [ih (fun x hx => hn x (List.mem_cons_of_mem _ hx)) s1 h n hnn,
+        syncOneSet_frame sets s1 s (hn s (List.mem_cons_self ..)) h1 n hnn]
+
+theorem find_filter_ne (sets : List IpSet) (n m : SetName) (h : m ≠ n) :
+    (sets.filter (·.name != n)).find? (·.name == m) = sets.find? (·.name == m) := by
+  induction sets with
+  | nil => rfl
+  | cons s t ih =>
+    by_cases e : s.name = n
+    · have : ¬ n = m := fun x => h x.symm
+      simp [List.filter_cons, e, List.find?_cons, this, ih]
+    · simp only [List.filter_cons, bne_iff_ne, ne_eq, e, not_false_eq_true, if_true, List.find?_cons]
+      split
+      · rfl
+      · exact ih
+
+theorem destroyStale_frame (t : Table) (stale : List SetName) (hs : ∀ n ∈ stale, n.isGlx = true) (sets : List IpSet) :
+    ∀ n, n.isGlx = false → (destroyStale t stale sets).find? (·.name == n) = sets.find? (·.name == n) := by
+  unfold destroyStale
+  induction stale generalizing sets with
+  | nil => intro _ _; rfl
+  | cons m rest ih =>
+    intro n hn
+    simp only [List.foldl_cons]
+    rw [ih (fun x hx => hs x (List.mem_cons_of_mem _ hx)) _ n hn]
+    split
+    · rfl
+    · have : n ≠ m := fun e => by rw [e, hs m (List.mem_cons_self ..)] at hn; cases hn
+      exact find_filter_ne sets m n this
+
+theorem ruleSets_glx (c : Cluster) (kIp kNet : SetKind) (h1 : kIp ≠ .foreign) (h2 : kNet ≠ .foreign) (h : String) (i : Nat)
+    (r : Rule) : ∀ s ∈ ruleSets c kIp kNet h i r, s.name.isGlx = true := by
+  intro s hs
+  simp only [ruleSets, List.mem_append] at hs
+  rcases hs with hs | hs <;> split at hs <;> simp at hs <;> subst hs <;> simp [SetName.isGlx, h1, h2]
+
+theorem compileSets_glx (c : Cluster) (ps : List NetPol) : ∀ s ∈ compileSets c ps, s.name.isGlx = true := by
+  intro s hs
+  simp only [compileSets, List.mem_flatMap] at hs
+  obtain ⟨p, _, hs⟩ := hs
+  simp only [policySets, List.mem_append] at hs
+  rcases hs with (hs | hs) | hs
+  · split at hs
+    · simp at hs; subst hs; simp [SetName.isGlx, selSetName]
+    · cases hs
+  · split at hs
+    · simp only [rulesSets, List.mem_flatMap] at hs
+      obtain ⟨x, _, hx⟩ := hs
+      exact ruleSets_glx c .sip .snet (by decide) (by decide) _ _ _ s hx
+    · cases hs
+  · split at hs
+    · simp only [rulesSets, List.mem_flatMap] at hs
+      obtain ⟨x, _, hx⟩ := hs
+      exact ruleSets_glx c .dip .dnet (by decide) (by decide) _ _ _ s hx
+    · cases hs
+
+theorem policyBatch_glx (t : Table) (ps : List NetPol) : ∀ cmd ∈ policyBatch t ps, cmd.chain.isGlx = true := by
+  intro cmd h
+  simp only [policyBatch, List.mem_append, List.mem_map, List.mem_flatMap, List.mem_filter] at h
+  rcases h with ((⟨p, _, rfl⟩ | ⟨c, ⟨_, hc⟩, rfl⟩) | ⟨p, _, r, _, rfl⟩) | ⟨c, ⟨_, hc⟩, rfl⟩
+  · rfl
+  · cases c <;> simp_all [Cmd.chain, Chain.isGlx]
+  · rfl
+  · cases c <;> simp_all [Cmd.chain, Chain.isGlx]
+
+/-- syncRules touches only GLX sets and GLX-PLCY chains -/
+theorem syncRules_frame (k : Kern) (c : Cluster) (ps : List NetPol) : Frame k (syncRules k c ps).1 := by
+  unfold syncRules syncRulesWith
+  split
+  · exact Frame.refl k
+  · rename_i sets1 h1
+    simp only
+    have hsets := foldlM_sets_frame (compileSets c ps) (compileSets_glx c ps) k.sets sets1 h1
+    refine ⟨fun ch hch => ?_, fun n hn => ?_⟩
+    · simp only [syncIptables]
+      split
+      · rename_i t hr
+        simp only
+        rw [restore_frame { k with sets := sets1 } _ (policyBatch_glx _ ps) t hr ch hch]
+      · rfl
+    · simp only
+      rw [destroyStale_frame _ _ (fun m hm => by
+        have := (List.mem_filter.mp hm).2
+        simp only [Bool.and_eq_true] at this; exact this.1) sets1 n hn]
+      exact hsets n hn
+
+/-- FRAME: a full sync from ANY kernel state leaves non-GLX chains (up to the documented base jumps) and non-GLX
+    sets as they were -/
+theorem fullSync_frame (k : Kern) (c : Cluster) (ps : List NetPol) (node : String) :
+    Frame k (fullSync k c ps node).1 := by
+  unfold fullSync fullSyncWith
+  exact (syncRules_frame k c ps).trans (syncPods_frame _ c ps node)
+
+theorem foreignRules_other (name : String) (rs : List PRule) : foreignRules (.other name) rs = rs := by
+  simp [foreignRules, glxBaseRules]
 
 end Galaxy.Policy
